@@ -237,3 +237,71 @@ package spine
 //@   loop 0 invariant len: len(newHandlers) == Fcnt($k)
 //@   loop 0 invariant elems: forall j int :: 0 <= j && j < $k && kept($s[j]) ==> newHandlers[Fcnt(j)] == $s[j]
 //@   loop 0 invariant gone: forall m int :: 0 <= m && m < len(newHandlers) ==> kept(newHandlers[m])
+
+// ---------------------------------------------------------------------------------------
+// response and result callbacks (C14)
+
+//@ func (*FeatureLocal).AddResponseCallback
+//@   requires r != nil && r.responseMsgCallback != nil
+//@   let M = r.responseMsgCallback
+//@   let L0 = ite(has(r.responseMsgCallback, msgCounterReference), r.responseMsgCallback[msgCounterReference], nil)
+//@   define registered = exists j int :: 0 <= j && j < len(L0) && L0[j] == function
+//@   ensures[C14] refused-iff-duplicate: (result != nil) <==> old(registered)
+//@   ensures[C14] refused-unchanged: result != nil ==> has(M, msgCounterReference) == old(has(M, msgCounterReference)) && M[msgCounterReference] == old(M[msgCounterReference])
+//@   ensures[C14] appended: result == nil ==> has(M, msgCounterReference) && len(M[msgCounterReference]) == len(L0) + 1 && (forall j int :: 0 <= j && j < len(L0) ==> M[msgCounterReference][j] == old(L0[j])) && M[msgCounterReference][len(L0)] == function
+//@   ensures[C14] others-untouched: forall k model.MsgCounterType :: k != msgCounterReference ==> has(M, k) == old(has(M, k)) && M[k] == old(M[k])
+//@   modifies map(gomap[model.MsgCounterType][]func(api.ResponseMessage)), held, L0[len(L0)]
+//@   loop 0 invariant none-yet: forall j int :: 0 <= j && j < $k ==> $s[j] != function
+
+//@ func (*FeatureLocal).processResponseMsgCallbacks
+//@   requires r != nil && r.responseMsgCallback != nil
+//@   let M = r.responseMsgCallback
+//@   let L0 = ite(has(r.responseMsgCallback, msgCounterReference), r.responseMsgCallback[msgCounterReference], nil)
+//@   ensures[C14] once-each: spawnn == old(spawnn) + len(L0) && forall j int :: 0 <= j && j < len(L0) ==> spawnfn[old(spawnn) + j] == old(L0[j]) && spawnarg(old(spawnn) + j, 0, api.ResponseMessage) == msg
+//@   ensures[C14] consumed: !has(M, msgCounterReference)
+//@   ensures[C14] others-untouched: forall k model.MsgCounterType :: k != msgCounterReference ==> has(M, k) == old(has(M, k)) && M[k] == old(M[k])
+//@   modifies map(gomap[model.MsgCounterType][]func(api.ResponseMessage)), held
+//@   loop 0 invariant count: spawnn == pre(spawnn) + $k
+//@   loop 0 invariant each: forall j int :: 0 <= j && j < $k ==> spawnfn[pre(spawnn) + j] == $s[j] && spawnarg(pre(spawnn) + j, 0, api.ResponseMessage) == msg
+//@   loop 0 invariant older: forall d int :: d < pre(spawnn) ==> spawnfn[d] == pre(spawnfn)[d]
+
+//@ func (*FeatureLocal).AddResultCallback
+//@   requires r != nil
+//@   let L0 = r.resultCallbacks
+//@   ensures[C14] appended: len(r.resultCallbacks) == len(L0) + 1 && (forall j int :: 0 <= j && j < len(L0) ==> r.resultCallbacks[j] == old(L0[j])) && r.resultCallbacks[len(L0)] == function
+//@   modifies r.resultCallbacks, r.resultCallbacks[len(r.resultCallbacks)], held
+
+//@ func (*FeatureLocal).processResultCallbacks
+//@   requires r != nil
+//@   let L0 = r.resultCallbacks
+//@   ensures[C14] once-each: spawnn == old(spawnn) + len(L0) && forall j int :: 0 <= j && j < len(L0) ==> spawnfn[old(spawnn) + j] == old(L0[j]) && spawnarg(old(spawnn) + j, 0, api.ResponseMessage) == msg
+//@   ensures[C14] kept: r.resultCallbacks == L0
+//@   modifies held
+//@   loop 0 invariant count: spawnn == pre(spawnn) + $k
+//@   loop 0 invariant each: forall j int :: 0 <= j && j < $k ==> spawnfn[pre(spawnn) + j] == $s[j] && spawnarg(pre(spawnn) + j, 0, api.ResponseMessage) == msg
+//@   loop 0 invariant older: forall d int :: d < pre(spawnn) ==> spawnfn[d] == pre(spawnfn)[d]
+
+//@ func (*FeatureLocal).processResult
+//@   requires r != nil && message != nil && r.responseMsgCallback != nil
+//@   let REF = message.RequestHeader.MsgCounterReference
+//@   let ok = message.Cmd.ResultData != nil && message.Cmd.ResultData.ErrorNumber != nil
+//@   let fires = ok && message.RequestHeader != nil && message.RequestHeader.MsgCounterReference != nil
+//@   let CBS = ite(has(r.responseMsgCallback, *REF), r.responseMsgCallback[*REF], nil)
+//@   let RCBS = r.resultCallbacks
+//@   ensures[C14] rejects-malformed: (result != nil) <==> !ok
+//@   ensures[C14] silent: !fires ==> spawnn == old(spawnn)
+//@   ensures[C14] fires-count: fires ==> spawnn == old(spawnn) + len(CBS) + len(RCBS)
+//@   ensures[C14] fires-response: fires ==> forall j int :: 0 <= j && j < len(CBS) ==> spawnfn[old(spawnn) + j] == old(CBS[j]) && spawnarg(old(spawnn) + j, 0, api.ResponseMessage).MsgCounterReference == old(*REF) && spawnarg(old(spawnn) + j, 0, api.ResponseMessage).FeatureRemote == old(message.FeatureRemote) && spawnarg(old(spawnn) + j, 0, api.ResponseMessage).Data.(*model.ResultDataType) == old(message.Cmd.ResultData)
+//@   ensures[C14] fires-result: fires ==> forall j int :: 0 <= j && j < len(RCBS) ==> spawnfn[old(spawnn) + len(CBS) + j] == old(RCBS[j]) && spawnarg(old(spawnn) + len(CBS) + j, 0, api.ResponseMessage).MsgCounterReference == old(*REF)
+//@   ensures[C14] consumed: fires ==> !has(r.responseMsgCallback, old(*REF))
+//@   modifies map(gomap[model.MsgCounterType][]func(api.ResponseMessage)), held
+
+//@ func (*FeatureLocal).processReply
+//@   requires r != nil && message != nil && r.responseMsgCallback != nil && message.FeatureRemote != nil && cmdHasData(message.Cmd) && cmdHasFct(message.Cmd)
+//@   let REF = message.RequestHeader.MsgCounterReference
+//@   let CBS = ite(message.RequestHeader != nil && message.RequestHeader.MsgCounterReference != nil && has(r.responseMsgCallback, *REF), r.responseMsgCallback[*REF], nil)
+//@   ensures[C14] rejected-silent: result != nil ==> spawnn == old(spawnn) && evn == old(evn)
+//@   ensures[C14] rejected-keeps-registration: result != nil ==> forall k model.MsgCounterType :: has(r.responseMsgCallback, k) == old(has(r.responseMsgCallback, k)) && r.responseMsgCallback[k] == old(r.responseMsgCallback[k])
+//@   ensures[C14] accepted-fires: result == nil ==> spawnn == old(spawnn) + len(CBS) && forall j int :: 0 <= j && j < len(CBS) ==> spawnfn[old(spawnn) + j] == old(CBS[j]) && spawnarg(old(spawnn) + j, 0, api.ResponseMessage).MsgCounterReference == old(*REF) && spawnarg(old(spawnn) + j, 0, api.ResponseMessage).FeatureRemote == old(message.FeatureRemote) && spawnarg(old(spawnn) + j, 0, api.ResponseMessage).Data == cmdValue(old(message.Cmd))
+//@   ensures[C14] accepted-event: result == nil ==> evn == old(evn) + 1 && ev[old(evn)].EventType == api.EventTypeDataChange && ev[old(evn)].Feature == old(message.FeatureRemote) && ev[old(evn)].Function == cmdFct(old(message.Cmd)) && ev[old(evn)].Data == cmdValue(old(message.Cmd))
+//@   modifies map(gomap[model.MsgCounterType][]func(api.ResponseMessage)), held, @PUBLISH
